@@ -147,7 +147,9 @@ def framing(chk, prog):
     f31 = prog.fn(T31)
     if f31 is not None:
         c02.gate_buffer(chk, prog)
-        c02.loop_checks(chk, prog, f31, P(f31.local_name(1) or "reader"), only_tail=True)
+        # a radial whose blocks are not all recognised makes the whole stream an error: the block dispatch (every ICD name
+        # reaches its arm, compared on the id's own bytes) is a framing obligation too, not only the reader's end position
+        c02.loop_checks(chk, prog, f31, P(f31.local_name(1) or "reader"))
 
 
 def run(chk, tier):
